@@ -82,6 +82,22 @@ def run(chk):
         if i % 3 == 0:
             fs["extra"] = r.choice(["var foo=1;", "function extra(){}", "var a=1;var b=2;"])   # set_extra_runtime_script, with and without scripts
         filesets.append(fs)
+    # every expression form x child form x operand position (depth 2) as attribute, text, wx:if / wx:for operand and template data: the guards
+    # and update-path trees written for them are part of the artefacts
+    from . import exprgen as eg
+    shapes = []
+    for t_ in eg.enum_depth2()[:: (3 if quick else 1)] + eg.forms(lambda i: [("data", "x"), ("data", "y"), ("data", "z")][i]):
+        try:
+            e = eg.src(tg.requote(t_, "'"), "min")
+        except Exception:
+            continue
+        if '"' not in e:
+            shapes.append(e)
+    for j in range(0, len(shapes), 12):
+        body = "".join('<v data-a="{{ %s }}" wx:if="{{ %s }}">{{ %s }}<block wx:for="{{ %s }}">{{index}}</block></v>' % (e, e, e, e) for e in shapes[j:j + 12])
+        body += '<template name="t">{{p}}</template>' + "".join('<template is="t" data="{{ p: %s, ...%s }}"/>' % (e, e) for e in shapes[j:j + 12] if not e.startswith("{"))
+        filesets.append({"files": [["p", body]]})
+    chk.bump("oracle:expression-shape-bindings", len(shapes))
     for i in range(60 if quick else 2000):
         filesets.append({"files": [["p", mutate.raw(rng.fork(("raw", i)))]]})
     # large templates
